@@ -1755,3 +1755,89 @@ def c04_r13(ctx):
             fnm_v = norm(strip_pre(_sb2(o.env[fnm.id], o.env, deep=True)))
     ctx.check(len(mods) == 1 and fnm_v is not None and fnm_v == "f'{" + sorted(mods)[0] + "}.py'", key(ao, "return type module"),
               f"the client imports the return type from {sorted(mods)} but the result types are written to {fnm_v}", ao.loc(), okmsg="client imports the return type from the module that is written")
+
+
+@rule("C02.R8", "ClientGenerator.add_method builds the method flavour the operation needs, hands it every piece, appends it to the client class and imports its return type",
+      min_instances=7, also=["C03", "C04", "C12", "C13"])
+def c02_r8(ctx):
+    repo = ctx.repo
+    fi = repo.func("client_generators.client:ClientGenerator.add_method")
+    eff = lambda c: norm(c.func) in ("self._class_def.body.append", "self._add_import", "self._class_def.body.insert", "self._class_def.body.extend")
+    table = [((True, True), "self._generate_subscription_method_def"), ((False, True), "self._generate_async_method"), ((False, False), "self._generate_method"), ((True, False), None)]
+    for (sub, asy), builder in table:
+        def atom(e, sub=sub, asy=asy):
+            t = norm(strip_pre(e))
+            if t in ("definition.operation == OperationType.SUBSCRIPTION", "definition.operation is OperationType.SUBSCRIPTION"):
+                return sub
+            if t in ("definition.operation != OperationType.SUBSCRIPTION", "definition.operation is not OperationType.SUBSCRIPTION"):
+                return not sub
+            if t == "async_":
+                return asy
+            if t == "not async_":
+                return not asy
+            if t == "self.plugin_manager":
+                return False
+            if t == "definition.name":
+                return True
+            return None
+        outs = Interp(fi, atom, is_effect=eff).run()
+        sc = f"subscription={'yes' if sub else 'no'} async={'yes' if asy else 'no'}"
+        if builder is None:
+            ctx.check(bool(outs) and all(o.kind == "raise" and o.exc == "NotSupported" and not o.effects for o in outs), key(fi, sc),
+                      f"[{sc}] a subscription cannot be served by the sync client: NotSupported must be raised before anything is added; got {[o.text()[:90] for o in outs]}", fi.loc(),
+                      okmsg=f"[{sc}] -> NotSupported, nothing added")
+            continue
+        outs = [o for o in outs if o.kind != "raise"]
+        good = len(outs) == 1
+        probs = []
+        if not good:
+            probs.append(f"{len(outs)} paths")
+        else:
+            o = outs[0]
+            effs = [strip_pre(e) for e in o.effects]
+            apps = [e for e in effs if norm(e.func) == "self._class_def.body.append"]
+            imps = [e for e in effs if norm(e.func) == "self._add_import"]
+            md = strip_pre(o.deref(allargs(apps[0])[0])) if len(apps) == 1 and allargs(apps[0]) else None
+            if len(apps) != 1 or not (isinstance(md, ast.Call) and norm(md.func) == builder):
+                probs.append(f"the method appended to the client class is {norm(md)[:80] if md is not None else [norm(a)[:60] for a in apps]}, expected the result of {builder}")
+            else:
+                want = {"name": "name", "return_type": "return_type", "arguments": "<arguments>", "arguments_dict": "<arguments_dict>", "operation_str": "operation_str",
+                        "operation_name": "definition.name.value", "variable_names": "<variable_names>"}
+                for k_, w in want.items():
+                    v = kw(md, k_)
+                    if v is None:
+                        probs.append(f"{builder} is called without `{k_}`")
+                        continue
+                    t = norm(strip_pre(o.deref(v)) if isinstance(v, ast.Name) and k_ in ("operation_name",) else v)
+                    if w.startswith("<"):
+                        continue
+                    if t != w and not (k_ == "operation_name" and t in ("definition.name.value", "definition.name.value if definition.name else ''")):
+                        probs.append(f"{builder}({k_}={t[:50]}), expected {w}")
+            if len(imps) != 1 or norm(allargs(imps[0])[0] if allargs(imps[0]) else ast.Constant(0)) not in (
+                    "generate_import_from(names=[return_type], from_=return_type_module, level=1)",):
+                probs.append(f"the return type is not imported from its module: {[norm(i)[:100] for i in imps]}")
+        ctx.check(not probs, key(fi, sc), f"[{sc}] " + "; ".join(probs), fi.loc(), okmsg=f"[{sc}] -> {builder}, appended, return type imported")
+    # arguments / variable names feed the builders from the same generator call
+    src = norm(fi.node)
+    ctx.check("self.arguments_generator.generate(variable_definitions=definition.variable_definitions)" in src or "self.arguments_generator.generate(definition.variable_definitions)" in src,
+              key(fi, "arguments source"), "method arguments are not generated from the operation's own variable definitions", fi.loc(), okmsg="arguments <- definition.variable_definitions")
+    # an anonymous operation gets the empty operation name
+    outs = [o for o in Interp(fi, lambda e: (False if norm(strip_pre(e)) == "definition.name" else False if norm(strip_pre(e)) in ("self.plugin_manager",) else
+                                           True if norm(strip_pre(e)) == "async_" else False if "SUBSCRIPTION" in norm(strip_pre(e)) else None), is_effect=eff).run() if o.kind != "raise"]
+    good = bool(outs)
+    for o in outs:
+        apps = [strip_pre(e) for e in o.effects if norm(strip_pre(e).func) == "self._class_def.body.append"]
+        md = strip_pre(o.deref(allargs(apps[0])[0])) if apps else None
+        v = kw(md, "operation_name") if isinstance(md, ast.Call) else None
+        v = strip_pre(o.deref(v)) if isinstance(v, ast.Name) else v
+        good = good and v is not None and norm(v) in ("''", '""')
+    ctx.check(good, key(fi, "anonymous operation"), "an operation without a name must be sent with operation_name ''", fi.loc(), okmsg="anonymous operation -> operation_name ''")
+    # the plugin hook, when present, replaces the method that is appended
+    outs = [o for o in Interp(fi, lambda e: (True if norm(strip_pre(e)) in ("self.plugin_manager", "definition.name", "async_") else False if "SUBSCRIPTION" in norm(strip_pre(e)) else None), is_effect=eff).run() if o.kind != "raise"]
+    good = bool(outs)
+    for o in outs:
+        apps = [strip_pre(e) for e in o.effects if norm(strip_pre(e).func) == "self._class_def.body.append"]
+        md = strip_pre(o.deref(allargs(apps[0])[0])) if apps else None
+        good = good and isinstance(md, ast.Call) and norm(md.func) == "self.plugin_manager.generate_client_method" and "operation_definition=definition" in norm(md)
+    ctx.check(good, key(fi, "plugin hook"), "with plugins the appended method must be what generate_client_method(method_def, operation_definition=definition) returns", fi.loc(),
+              okmsg="plugins: hook result is what is appended")
